@@ -5,6 +5,7 @@ CONSTANTS
   Statuses <- AllStatuses
   Forms <- AllForms
   Methods <- AllMethods
+  Origins <- @@ORIGINS@@
   MaxSet = @@MAXSET@@
   MaxHops = @@MAXHOPS@@
 VIEW MCView
